@@ -1,14 +1,15 @@
-SPECIFICATION TSpec
+SPECIFICATION Spec
 CONSTANTS
   Vers = {"sasl", "sasl2"}
-  Mechs = {"PLAIN", "DIGEST-MD5", "ANONYMOUS", "X-UNKNOWN"}
+  Mechs = {"PLAIN", "DIGEST-MD5"}
   Creds = {"right", "wrongPw", "ownEmpty", "otherUser", "victimEmpty", "unknownPw", "unknownEmpty", "embedEmpty", "embedBareEmpty", "embedSlashEmpty", "embedKnown", "malformed", "empty"}
-  BindRes = {"ra", "rv"}
+  BindRes = {"ra"}
   Kinds = {"message", "presence", "iq"}
   Froms = {"absent", "own", "ownBare", "victim", "other", "ownOtherRes", "ownSibling", "ownCase", "ownSlash", "ownPrefix", "ownDomain", "ownLookalike"}
   Tos = {"victimBare", "victimFull", "domain", "absent"}
-  Stanzas <- AllStanzas
-  MaxPending = 99
+  Stanzas <- OneStanza
+  MaxPending = 1
   MaxHist = 99
-INVARIANT Done
+VIEW GenView
+ACTION_CONSTRAINT EmitOneAuth
 CHECK_DEADLOCK FALSE
